@@ -1,4 +1,6 @@
 """C05 - Session events: connect first, one disconnect with the true reason, none after."""
+import os
+
 from hypothesis import strategies as st
 
 from vk.runner import Violation
@@ -229,13 +231,16 @@ def cause_class(causes):
 
 
 PROFILE = {
+    'client_flavours': ['plain', 'plain', 'plain', 'plain', 'jsonp', 'gzip', 'jsonp+gzip'],
     'weights': {'open': 3, 'poll': 3, 'post': 5, 'probe_step': 3, 'ws_send': 4, 'ws_close': 2,
                 'ws_fail': 2, 'pong': 1, 'app_send': 2, 'app_disconnect': 4, 'advance': 4,
                 'fault': 2, 'vanish': 1},
     'max_sessions': 3,
     'packet_kinds': [('msg', 4), ('pong', 1), ('close', 3), ('upgrade', 1), ('bad', 1)],
     'post_modes': [('pkts', 10), ('raw', 1)],
-    'config': {'transports': st.sampled_from([None, None, None, ['polling', 'websocket'],
+    'config': {'http_compression': st.sampled_from([True, False]),
+               'compression_threshold': st.sampled_from([0, 1024]),
+               'transports': st.sampled_from([None, None, None, ['polling', 'websocket'],
                                               ['polling'], ['websocket']]),
                'ping_interval': st.sampled_from([1, 2.5, 5, 25]),
                'ping_timeout': st.sampled_from([1, 2.5, 5, 20])},
@@ -249,6 +254,9 @@ PROFILE = {
     'disconnect_all_pct': 2,
     'world_kw_st': st.fixed_dictionaries({
         'legacy_disconnect': st.sampled_from([False, False, True]),
+        # threaded world: switching points at single lines inside the library
+        'preempt': st.sampled_from([False, False, True] if os.environ.get('VERIF_PREEMPT') == '1'
+                                   else [False]),
         # handlers that take (virtual) time: the event is logged when the handler starts, other
         # end causes and client units arrive while it is still running
         'handler_delay': st.sampled_from([{}, {}, {}, {'disconnect': 0.25}, {'disconnect': 0.25},
@@ -281,6 +289,9 @@ def summarize(ex):
     if any(a['op'] == 'fault' for a in ex.actions):
         nt = True
         cls.add('handler-fault')
+    if ex.impl == 'thread' and getattr(ex.world.sched, 'preemptions', 0):
+        cls.add('line-preemptions')
+        nt = True
     for k, v in sorted(ex.world.app_log.delay.items()):
         if v:
             cls.add('slow-%s-handler' % k)
